@@ -27,7 +27,7 @@ TIERS = {
     "quick": {"cases": 16000, "block": 200, "case_timeout": 30.0},
     "thorough": {"cases": 400000, "block": 400, "case_timeout": 60.0},
 }
-MODES = ["det", "det", "ssa", "ssa", "ssa_safe", "volume", "volume", "delay", "delay"]  # + "lineage" once the lineage engine exists
+MODES = ["det", "det", "ssa", "ssa", "ssa_safe", "volume", "volume", "delay", "delay", "lineage", "lineage"]
 
 
 def add_rules(r, model, grid, det):
